@@ -103,11 +103,11 @@ def check(t, e, free, pre):
     try:
         with warnings.catch_warnings():
             warnings.simplefilter("ignore")
-            with kernel.time_limit(20):
+            with kernel.time_limit(120):
                 sigma = match(t, e, free_variable_names=list(free) if free is not None else None,
                               pre_match=dict(pre) if pre is not None else None)
     except kernel.Budget:
-        return ("budget", "match did not return within 20 s"), "hang", False
+        return ("budget", "match did not return within 120 s"), "hang", False
     except ValueError:
         return None, "ValueError", False
     except Exception as ex:
